@@ -939,6 +939,56 @@ def rule_r18(prog, res):
               'for its original (C16-R5)', 'C16', c16.rule_r5, prog, Result)
 
 
+def rule_r19(prog, res):
+    from . import c18
+    from ..report import Result
+    res.share('R19', 'a nil message is expanded into missing members only '
+              'for the body styles that have members (C18-R7)', 'C18',
+              c18.rule_r7, prog, Result)
+
+
+def rule_r20(prog, res):
+    res.rule('R20', 'the binary writers fall back on the protocol\'s own '
+             'binary_encoding when the caller suggests none (the attribute '
+             'and modifier handlers call to_unicode without one)')
+    o = prog.cls('spyne.protocol._outbase:OutProtocolBase')
+    import re
+    n = 0
+    for nm, f in sorted(o.methods.items()):
+        if not re.match(r'(byte_array|file)_to_(bytes|unicode)$', nm):
+            continue
+        params = [a.arg for a in f.node.args.args]
+        if 'suggested_encoding' not in params:
+            continue
+        usedef = [i for i in walk_no_defs(f.node) if isinstance(i, ast.If)
+                  and 'BINARY_ENCODING_USE_DEFAULT' in unparse(i.test)]
+        if not usedef:
+            continue
+        falls = [a for a in walk_no_defs(f.node) if isinstance(a, ast.Assign)
+                 and any(isinstance(t, ast.Name) and t.id == 'encoding'
+                         for t in a.targets)
+                 and 'self.binary_encoding' in unparse(a.value)]
+        ok = bool(falls)
+        if nm == 'file_to_unicode' and not ok:
+            res.ob('R20', f.where, 'OutProtocolBase.%s has no fall-back '
+                   '(as on the pinned tree; File text is not reachable '
+                   'without a suggested encoding)' % nm, 'info')
+            continue
+        n += 1
+        res.ob('R20', f.where, 'OutProtocolBase.%s: %s' % (nm, (
+            'falls back on self.binary_encoding' if ok else
+            'uses the suggested encoding only')), 'ok' if ok else 'VIOLATED')
+        if not ok:
+            res.finding('R20', 'OutProtocolBase.%s|no-protocol-encoding' % nm,
+                        f.where, '%s takes the encoding from its caller '
+                        'only: a ByteArray reached without a suggested '
+                        'encoding (XmlAttribute(ByteArray) through '
+                        'xmlattribute_to_unicode) has encoding None and the '
+                        'response can not be written although the request '
+                        'was read' % nm)
+    res.floor('R20', 'binary writers with a protocol fall-back', n, 3)
+
+
 def run(prog, res, tier):
     res.run_rule(rule_r1, prog, res)
     res.run_rule(rule_r2, prog, res)
@@ -958,6 +1008,8 @@ def run(prog, res, tier):
     res.run_rule(rule_r16, prog, res)
     res.run_rule(rule_r17, prog, res)
     res.run_rule(rule_r18, prog, res)
+    res.run_rule(rule_r19, prog, res)
+    res.run_rule(rule_r20, prog, res)
 
 
 _H = 'spyne/protocol/dictdoc/hier.py'
@@ -966,6 +1018,26 @@ _J = 'spyne/protocol/json.py'
 _Y = 'spyne/protocol/yaml.py'
 
 MUTANTS = [
+    Mutant('byte-array-text-without-protocol-encoding', 'R20', 'fire',
+           'spyne/protocol/_outbase.py',
+           in_func('OutProtocolBase.byte_array_to_unicode',
+                   "            if suggested_encoding is None:\n"
+                   "                encoding = self.binary_encoding\n"
+                   "            else:\n"
+                   "                encoding = suggested_encoding\n",
+                   "            encoding = suggested_encoding\n"),
+           'no-protocol-encoding'),
+    Mutant('byte-array-text-encoding-or', 'R20', 'twin',
+           'spyne/protocol/_outbase.py',
+           in_func('OutProtocolBase.byte_array_to_unicode',
+                   "            if suggested_encoding is None:\n"
+                   "                encoding = self.binary_encoding\n"
+                   "            else:\n"
+                   "                encoding = suggested_encoding\n",
+                   "            encoding = suggested_encoding\n"
+                   "            if encoding is None:\n"
+                   "                encoding = self.binary_encoding\n"),
+           None),
     Mutant('falsy-message-looked-up-again', 'R5', 'fire', _H,
            in_func('HierDictDocument.deserialize',
                    "if message_doc is None and self.key_encoding is not None:",
